@@ -595,7 +595,7 @@ class BeautifulSoup(Tag):
         # the same tests twice, convert Unicode to a bytestring and
         # operate on the bytestring.
         if isinstance(markup, str):
-            markup_b = markup.encode("utf8")
+            markup_b = markup.encode("utf8", "replace")
         else:
             markup_b = markup
 
